@@ -155,10 +155,10 @@ func verifPoint(kind string, root, a, t action, flag bool) {
 		}
 		sb.WriteByte('\n')
 		s.w.WriteString(sb.String())
-		if kind == "end" {
-			// the process may exit right after the last action ended
-			s.w.Flush()
-		}
+		// The process exits as soon as the main goroutine is done, without
+		// waiting for handlers that are past their last decrement: flush
+		// every line, so that the file is exactly the log up to the exit.
+		s.w.Flush()
 		s.mu.Unlock()
 	}
 	if s.yield {
